@@ -172,16 +172,19 @@ structure InvB (s : St) : Prop where
   b2 : s.cfg.fixStopped = true → (s.wpc = .checked ∨ s.wpc = .toDispatch) → s.chkStale = true ∨ s.ready = true
   b3 : ∀ k, s.cpc = .inMsg .restart k → (period s.trace).forbS = false
   g : ∀ fd fs rs cs, GRec.disp fd fs rs cs ∈ s.glog → s.cfg.fixStopped = true → fs = true → cs = true
+  /-- the `set_queue_ready(true)` segment of a descriptor-less SET_VRING_KICK exists only in the mutated code -/
+  b4 : s.cpc ≠ .inMsg .nofd 1
 
 theorem invB_kick {s : St} (h : InvB s) (d : Evt) (s' : St) (hs : step s (.kick d) = some s') : InvB s' := by
   simp only [step, Option.some.injEq] at hs
   subst hs
-  obtain ⟨b1, b2, b3, g⟩ := h
-  refine ⟨?_, ?_, ?_, ?_⟩
+  obtain ⟨b1, b2, b3, g, b4⟩ := h
+  refine ⟨?_, ?_, ?_, ?_, ?_⟩
   · simpa [emit, period_append, Period.next, afterStop] using b1
   · simpa [emit] using b2
   · simpa [emit, period_append, Period.next] using b3
   · simpa [emit] using g
+  · simpa [emit] using b4
 
 theorem invB_send {s : St} (h : InvB s) (m : CMsg) (s' : St) (hs : step s (.send m) = some s') : InvB s' := by
   simp only [step] at hs
@@ -190,54 +193,55 @@ theorem invB_send {s : St} (h : InvB s) (m : CMsg) (s' : St) (hs : step s (.send
   | idle =>
     simp only [hc, Option.some.injEq] at hs
     subst hs
-    obtain ⟨b1, b2, b3, g⟩ := h
-    refine ⟨?_, ?_, ?_, ?_⟩
+    obtain ⟨b1, b2, b3, g, b4⟩ := h
+    refine ⟨?_, ?_, ?_, ?_, ?_⟩
     · intro h'
       cases m <;> simp_all [emit, period_append, Period.next, afterStop]
     · simpa [emit] using b2
     · intro k h'
       cases m <;> simp_all [emit, period_append, Period.next]
     · simpa [emit] using g
+    · simp [emit]
 
 theorem invB_w {s : St} (h : InvB s) (s' : St) (hs : step s .w = some s') : InvB s' := by
-  obtain ⟨b1, b2, b3, g⟩ := h
+  obtain ⟨b1, b2, b3, g, b4⟩ := h
   simp only [step, wStep] at hs
   cases hw : s.wpc with
   | dead => simp [hw] at hs
   | wait =>
     simp only [hw, Option.some.injEq] at hs
     subst hs
-    refine ⟨?_, ?_, ?_, ?_⟩ <;> split <;> simp_all [afterStop]
+    refine ⟨?_, ?_, ?_, ?_, ?_⟩ <;> split <;> simp_all [afterStop]
   | woken =>
     simp only [hw, Option.some.injEq] at hs
     subst hs
-    refine ⟨?_, ?_, ?_, ?_⟩ <;> split <;> simp_all [afterStop]
+    refine ⟨?_, ?_, ?_, ?_, ?_⟩ <;> split <;> simp_all [afterStop]
   | checked =>
     simp only [hw] at hs
     split at hs
     · simp only [Option.some.injEq] at hs; subst hs
-      refine ⟨?_, ?_, ?_, ?_⟩ <;> simp_all [afterStop]
+      refine ⟨?_, ?_, ?_, ?_, ?_⟩ <;> simp_all [afterStop]
     · split at hs
       · split at hs
         · split at hs
           · simp only [Option.some.injEq] at hs; subst hs
-            refine ⟨?_, ?_, ?_, ?_⟩ <;> simp_all [afterStop]
+            refine ⟨?_, ?_, ?_, ?_, ?_⟩ <;> simp_all [afterStop]
           · simp only [Option.some.injEq] at hs; subst hs
-            refine ⟨?_, ?_, ?_, ?_⟩ <;> simp_all [afterStop, emit, period_append, Period.next]
+            refine ⟨?_, ?_, ?_, ?_, ?_⟩ <;> simp_all [afterStop, emit, period_append, Period.next]
         · split at hs
           · simp only [Option.some.injEq] at hs; subst hs
-            refine ⟨?_, ?_, ?_, ?_⟩ <;> simp_all [afterStop, emit, period_append, Period.next]
+            refine ⟨?_, ?_, ?_, ?_, ?_⟩ <;> simp_all [afterStop, emit, period_append, Period.next]
           · simp only [Option.some.injEq] at hs; subst hs
-            refine ⟨?_, ?_, ?_, ?_⟩ <;> simp_all [afterStop, emit, period_append, Period.next]
+            refine ⟨?_, ?_, ?_, ?_, ?_⟩ <;> simp_all [afterStop, emit, period_append, Period.next]
       · split at hs
         · simp only [Option.some.injEq] at hs; subst hs
-          refine ⟨?_, ?_, ?_, ?_⟩ <;> simp_all [afterStop]
+          refine ⟨?_, ?_, ?_, ?_, ?_⟩ <;> simp_all [afterStop]
         · simp only [Option.some.injEq] at hs; subst hs
-          refine ⟨?_, ?_, ?_, ?_⟩ <;> simp_all [afterStop]
+          refine ⟨?_, ?_, ?_, ?_, ?_⟩ <;> simp_all [afterStop]
   | toDispatch =>
     simp only [hw, Option.some.injEq] at hs
     subst hs
-    refine ⟨?_, ?_, ?_, ?_⟩
+    refine ⟨?_, ?_, ?_, ?_, ?_⟩
     · simpa [emit, period_append, Period.next, afterStop] using b1
     · simp [emit]
     · simpa [emit, period_append, Period.next] using b3
@@ -250,16 +254,19 @@ theorem invB_w {s : St} (h : InvB s) (s' : St) (hs : step s .w = some s') : InvB
         rcases b2 hcfg (Or.inr hw) with h2 | h2
         · exact h2
         · rw [this] at h2; cases h2
+    · simpa [emit] using b4
 
-theorem invB_c {s : St} (h : InvB s) (s' : St) (hs : step s .c = some s') : InvB s' := by
-  obtain ⟨b1, b2, b3, g⟩ := h
+/-- needs the unmutated guard of `set_vring_kick` (`nofdStarts = false`): with the mutation a descriptor-less
+SET_VRING_KICK sets `ready` inside the forbidden period of a stop (`b1` fails) -/
+theorem invB_c {s : St} (h : InvB s) (hm : s.cfg.nofdStarts = false) (s' : St) (hs : step s .c = some s') : InvB s' := by
+  obtain ⟨b1, b2, b3, g, b4⟩ := h
   simp only [step, cStep] at hs
   cases hc : s.cpc with
   | idle => simp [hc] at hs
   | inMsg m k =>
     simp only [hc] at hs
     split at hs <;> cases hs <;>
-      (refine ⟨?_, ?_, ?_, ?_⟩ <;>
+      (refine ⟨?_, ?_, ?_, ?_, ?_⟩ <;>
         simp_all [afterStop, noteDisable, noteStop, reply, emit, period_append, Period.next, CMsg.disables] <;>
         (try (intro _ h; rcases h with h | h <;> simp [h])))
 
@@ -575,6 +582,39 @@ theorem invC_c {s : St} (h : InvC s) (s' : St) (hs : step s .c = some s') : InvC
       intro d hd
       have := c2 d hd
       simpa [pendingDel, hc, reply, emit] using this
+    -- nofd 0: the current descriptor leaves the epoll set, the ring has no kick descriptor
+    · have hall := unregKick_reg_false h0
+      refine ⟨by simpa using c1, ?_, ?_, ?_, ?_, ?_, ?_, by simpa using g⟩
+      · intro d hd; simp only at hd; rw [hall d] at hd; cases hd
+      · intro d hd; simp only at hd; rw [hall d] at hd; cases hd
+      · intro h1; simp only [CPc.inMsg.injEq] at h1; cases h1.1
+      · intro d hd; simp at hd
+      · rintro ⟨k', h1⟩; simp only [CPc.inMsg.injEq] at h1; cases h1.1
+      · rintro ⟨m', k', h1, h2⟩
+        simp only [CPc.inMsg.injEq] at h1
+        rw [← h1.1] at h2; simp [CMsg.disables] at h2
+    -- nofd 1 (mutated guard only)
+    · refine ⟨c1, ?_, c3, by simp, c5, ?_, ?_, g⟩
+      · intro d hd
+        have := c2 d hd
+        simpa [pendingDel, hc, CMsg.disables] using this
+      · rintro ⟨k', h1⟩; simp only [CPc.inMsg.injEq] at h1; cases h1.1
+      · rintro ⟨m', k', h1, h2⟩
+        simp only [CPc.inMsg.injEq] at h1
+        rw [← h1.1] at h2; simp [CMsg.disables] at h2
+    -- nofd 2
+    · refine ⟨by simpa using c1, ?_, ?_, by simp, by simpa using c5, ?_, ?_, by simpa using g⟩
+      · intro d hd; left; simpa using (epollUpdate_props h0 d hd).2.2
+      · intro d hd; simpa using (epollUpdate_props h0 d hd).1
+      · rintro ⟨k', h1⟩; simp only [CPc.inMsg.injEq] at h1; cases h1.1
+      · rintro ⟨m', k', h1, h2⟩
+        simp only [CPc.inMsg.injEq] at h1
+        rw [← h1.1] at h2; simp [CMsg.disables] at h2
+    -- nofd 3 (reply)
+    · refine ⟨c1, ?_, c3, by simp [reply, emit], c5, by simp [reply, emit, afterStop], by simp [reply, emit, afterDisable], g⟩
+      intro d hd
+      have := c2 d hd
+      simpa [pendingDel, hc, reply, emit] using this
 
 /-! ## history and ghost log -/
 
@@ -654,21 +694,24 @@ theorem step_trace {s s' : St} {l : Lbl} (hs : step s l = some s') : TraceStep s
 
 /-! ## all invariants along a run -/
 
+/-- `b` (the stop half of P1) is an invariant of the code as it is — pinned or repaired — but not of the code with the
+mutated guard of `set_vring_kick` (`Props.C12.nofd_kick_marks_ready_counterexample`) -/
 structure Inv (s : St) : Prop where
   a : InvA s
-  b : InvB s
+  b : s.cfg.nofdStarts = false → InvB s
   c : InvC s
 
 theorem inv_init (cfg : Cfg) : Inv (init cfg) := by
-  refine ⟨⟨?_, ?_, ?_, ?_⟩, ⟨?_, ?_, ?_, ?_⟩, ⟨?_, ?_, ?_, ?_, ?_, ?_, ?_, ?_⟩⟩ <;>
+  refine ⟨⟨?_, ?_, ?_, ?_⟩, fun _ => ⟨?_, ?_, ?_, ?_, ?_⟩, ⟨?_, ?_, ?_, ?_, ?_, ?_, ?_, ?_⟩⟩ <;>
     simp [init, period, afterDisable, afterStop, pendingDel]
 
 theorem inv_step {s s' : St} {l : Lbl} (h : Inv s) (hs : step s l = some s') : Inv s' := by
+  have hcfg : s'.cfg = s.cfg := (step_trace hs).1
   cases l with
-  | kick d => exact ⟨invA_kick h.a d s' hs, invB_kick h.b d s' hs, invC_kick h.c d s' hs⟩
-  | send m => exact ⟨invA_send h.a m s' hs, invB_send h.b m s' hs, invC_send h.c m s' hs⟩
-  | w => exact ⟨invA_w h.a s' hs, invB_w h.b s' hs, invC_w h.c s' hs⟩
-  | c => exact ⟨invA_c h.a s' hs, invB_c h.b s' hs, invC_c h.c s' hs⟩
+  | kick d => exact ⟨invA_kick h.a d s' hs, fun hm => invB_kick (h.b (hcfg ▸ hm)) d s' hs, invC_kick h.c d s' hs⟩
+  | send m => exact ⟨invA_send h.a m s' hs, fun hm => invB_send (h.b (hcfg ▸ hm)) m s' hs, invC_send h.c m s' hs⟩
+  | w => exact ⟨invA_w h.a s' hs, fun hm => invB_w (h.b (hcfg ▸ hm)) s' hs, invC_w h.c s' hs⟩
+  | c => exact ⟨invA_c h.a s' hs, fun hm => invB_c (h.b (hcfg ▸ hm)) (hcfg ▸ hm) s' hs, invC_c h.c s' hs⟩
 
 theorem inv_run {s s' : St} (h : Inv s) (ls : List Lbl) (hs : run s ls = some s') : Inv s' := by
   induction ls generalizing s with
